@@ -139,7 +139,7 @@ func runCheck(o checkOpts) *checkResult {
 	}
 	dir, _ := os.MkdirTemp("", "govc-"+o.prop+"-")
 	defer cleanupDir(dir)
-	timeout, retry, all := 10, 40, false
+	timeout, retry, all := 10, 90, false
 	if o.tier == "thorough" {
 		timeout, retry, all = 60, 120, true
 	}
@@ -152,6 +152,33 @@ func runCheck(o checkOpts) *checkResult {
 			continue
 		}
 		funcs = append(funcs, k)
+	}
+	// C11's ownership discipline is package wide: every function with an
+	// access that needs a proof is visited, with or without a contract; for
+	// those not tagged with the property only the ownership obligations count.
+	onlyLabelled := map[string]bool{}
+	if len(w.db.Owners) > 0 && ownersProp(w) == o.prop {
+		have := map[string]bool{}
+		for _, k := range funcs {
+			have[k] = true
+		}
+		roles := w.inferRoles()
+		for _, fn := range w.packageFuncs() {
+			need := false
+			for _, a := range w.fieldAccesses(fn) {
+				if ownerVerdict(roles[fn], a) != "" {
+					need = true
+				}
+			}
+			k := fnKey(fn)
+			if need && !have[k] {
+				if fc := w.db.Funcs[k]; fc != nil && (fc.Extern || fc.Trusted) {
+					continue
+				}
+				funcs = append(funcs, k)
+				onlyLabelled[k] = true
+			}
+		}
 	}
 	var allObls, reachObls []*Obligation
 	var warns, errs []string
@@ -173,6 +200,9 @@ func runCheck(o checkOpts) *checkResult {
 			}
 			n := 0
 			for _, ob := range r.Obls {
+				if onlyLabelled[k] && ob.Label == "" {
+					continue
+				}
 				if oblCounts(ob, o.prop) {
 					allObls = append(allObls, ob)
 					n++
@@ -209,6 +239,7 @@ func runCheck(o checkOpts) *checkResult {
 	for _, l := range lemmas {
 		allObls = append(allObls, l)
 	}
+	allObls = append(allObls, w.structureObls(o.prop)...)
 	// A contract that no longer fits the code (unknown identifier, changed
 	// signature, vanished program point) means obligations that were
 	// discharged on the unchanged tree cannot even be generated any more:
@@ -485,7 +516,7 @@ func tryReplay(w *World, o checkOpts, ob *Obligation, rp map[string]interface{})
 	}
 	drv := replayDrivers[ob.Func]
 	if drv == nil {
-		return false, "no replay driver for " + ob.Func + "; the model is attached as solver_output"
+		drv = genericReplay
 	}
 	ok, note := drv(w, o, ob, rp)
 	return ok, note
